@@ -1904,8 +1904,12 @@ func buildConstructorCode(src, tgt *expr.AttributeExpr, sourceVar, targetVar str
 	for _, nat := range *tobj {
 		if _, ok := nat.Attribute.Type.(*expr.ResultTypeExpr); ok {
 			targetRTs.Set(nat.Name, nat.Attribute)
-			tobj.Delete(nat.Name)
 		}
+	}
+	// delete once the iteration is over: Delete shifts the attributes that
+	// follow, a result type right after another one would be skipped.
+	for _, nat := range *targetRTs {
+		tobj.Delete(nat.Name)
 	}
 	data["Source"] = sourceVar
 	data["Target"] = targetVar
